@@ -1,5 +1,5 @@
 (* C17: the committed allow-table.  Every potential nondeterminism site the translator finds in
-   fx-core must be listed here — keyed by (file, function, kind, number of occurrences) — with the
+   fx-core must be listed here — keyed by (file, function, kind, number of occurrences, detail: float format string / float operations inside a map loop) — with the
    reason it cannot make two executions of the same block differ.  Reasons that are mathematical are
    theorems of proofs/P_Perm.v (see discharge_stmt there); the two classification-only reasons
    (D_PureFloat, D_Telemetry) are by reading and say so.
@@ -18,32 +18,35 @@ Inductive discharge :=
 | D_CommSum         (* every iteration adds a per-element vector into accumulators with exact integer
                        (big.Int / LegacyDec) addition: tally_order_irrelevant                          *)
 | D_ExactFloatSum   (* float64 accumulation of |integers| whose total stays below 2^53: every partial
-                       sum is exact, so the order is irrelevant: power_diff_order_irrelevant           *)
+                       sum is exact, so the order is irrelevant: power_diff_order_irrelevant.  Exactly two
+                       float operations may sit inside the map loop (the conversion and the +=); a division
+                       or multiplication inside the loop would make the summands non-integers              *)
 | D_MapRebuild      (* each iteration stores a function of one entry under a key that is injective in
                        the entry's key into a fresh map: map_rebuild_order_irrelevant                  *)
-| D_PureFloat       (* a float operation applied once to values that are themselves deterministic
+| D_PureFloat       (* (for the %.8f rendering: 8 decimals is what the allow-table pins)
+                       a float operation applied once to values that are themselves deterministic
                        (no accumulation across an unordered iteration); IEEE-754 binary64 operations
                        and Go's strconv formatting are functions of their operands — by reading       *)
 | D_Telemetry.      (* a float constant handed to a telemetry counter; metrics are not state — by reading *)
 
-Definition allow : list (string * string * site_kind * Z * discharge) :=
- [ ("app/app.go", "App.AutoCliOpts", K_maprange, 1, D_MapRebuild);
-   ("app/app.go", "App.GetModules", K_maprange, 1, D_MapRebuild);
-   ("app/genesis.go", "NewDefAppGenesisByDenom", K_maprange, 1, D_MapRebuild);
-   ("app/modules.go", "GetMaccPerms", K_maprange, 1, D_MapRebuild);
-   ("app/modules.go", "ModuleAccountAddrs", K_maprange, 1, D_MapRebuild);
-   ("x/crosschain/keeper/abci.go", "Keeper.isNeedOracleSetRequest", K_floatfmt, 1, D_PureFloat);
-   ("x/crosschain/keeper/batch_fee.go", "Keeper.GetAllBatchFees", K_maprange, 1, D_SortUnique);
-   ("x/crosschain/keeper/bridge_call_in.go", "Keeper.BridgeCallHandler", K_float, 1, D_Telemetry);
-   ("x/crosschain/keeper/bridge_call_out.go", "Keeper.AddOutgoingBridgeCallWithoutBuild", K_float, 1, D_Telemetry);
-   ("x/crosschain/keeper/msg_server.go", "MsgServer.AddDelegate", K_float, 1, D_Telemetry);
-   ("x/crosschain/keeper/oracle.go", "Keeper.SlashOracle", K_float, 1, D_Telemetry);
-   ("x/crosschain/keeper/send_to_fx.go", "Keeper.SendToFxExecuted", K_float, 1, D_Telemetry);
-   ("x/crosschain/types/external_address.go", "GetSupportChains", K_maprange, 1, D_SortUnique);
-   ("x/crosschain/types/types.go", "BridgeValidators.PowerDiff", K_float, 4, D_ExactFloatSum);
-   ("x/crosschain/types/types.go", "BridgeValidators.PowerDiff", K_maprange, 1, D_ExactFloatSum);
-   ("x/gov/keeper/tally.go", "Keeper.Tally", K_maprange, 1, D_CommSum);
-   ("x/gov/types/msgs.go", "CustomParams.ValidateBasic", K_float, 1, D_PureFloat) ].
+Definition allow : list (string * string * site_kind * Z * string * discharge) :=
+ [ ("app/app.go", "App.AutoCliOpts", K_maprange, 1, "", D_MapRebuild);
+   ("app/app.go", "App.GetModules", K_maprange, 1, "", D_MapRebuild);
+   ("app/genesis.go", "NewDefAppGenesisByDenom", K_maprange, 1, "", D_MapRebuild);
+   ("app/modules.go", "GetMaccPerms", K_maprange, 1, "", D_MapRebuild);
+   ("app/modules.go", "ModuleAccountAddrs", K_maprange, 1, "", D_MapRebuild);
+   ("x/crosschain/keeper/abci.go", "Keeper.isNeedOracleSetRequest", K_floatfmt, 1, "%.8f", D_PureFloat);
+   ("x/crosschain/keeper/batch_fee.go", "Keeper.GetAllBatchFees", K_maprange, 1, "", D_SortUnique);
+   ("x/crosschain/keeper/bridge_call_in.go", "Keeper.BridgeCallHandler", K_float, 1, "", D_Telemetry);
+   ("x/crosschain/keeper/bridge_call_out.go", "Keeper.AddOutgoingBridgeCallWithoutBuild", K_float, 1, "", D_Telemetry);
+   ("x/crosschain/keeper/msg_server.go", "MsgServer.AddDelegate", K_float, 1, "", D_Telemetry);
+   ("x/crosschain/keeper/oracle.go", "Keeper.SlashOracle", K_float, 1, "", D_Telemetry);
+   ("x/crosschain/keeper/send_to_fx.go", "Keeper.SendToFxExecuted", K_float, 1, "", D_Telemetry);
+   ("x/crosschain/types/external_address.go", "GetSupportChains", K_maprange, 1, "", D_SortUnique);
+   ("x/crosschain/types/types.go", "BridgeValidators.PowerDiff", K_float, 4, "inmaprange,inmaprange", D_ExactFloatSum);
+   ("x/crosschain/types/types.go", "BridgeValidators.PowerDiff", K_maprange, 1, "", D_ExactFloatSum);
+   ("x/gov/keeper/tally.go", "Keeper.Tally", K_maprange, 1, "", D_CommSum);
+   ("x/gov/types/msgs.go", "CustomParams.ValidateBasic", K_float, 1, "", D_PureFloat) ].
 
 Definition kind_eqb (a b : site_kind) : bool :=
   match a, b with
@@ -52,11 +55,11 @@ Definition kind_eqb (a b : site_kind) : bool :=
   | _, _ => false
   end.
 
-Fixpoint lookup_allow_in (tbl : list (string * string * site_kind * Z * discharge)) (s : site_row) : option discharge :=
+Fixpoint lookup_allow_in (tbl : list (string * string * site_kind * Z * string * discharge)) (s : site_row) : option discharge :=
   match tbl with
   | [] => None
-  | (f, fn, k, n, d) :: r =>
-      if (String.eqb f (s_file s) && String.eqb fn (s_func s) && kind_eqb k (s_kind s) && (n =? s_count s))%bool
+  | (f, fn, k, n, det, d) :: r =>
+      if (String.eqb f (s_file s) && String.eqb fn (s_func s) && kind_eqb k (s_kind s) && (n =? s_count s) && String.eqb det (s_detail s))%bool
       then Some d else lookup_allow_in r s
   end.
 
